@@ -594,6 +594,8 @@ def check_property(prop, jobs, tier, level, explanation, trusted, seed=0, quiet=
                 # other FAILUREs keep their own complete counterexample traces (paths beyond a bound are cut), so they stay violations
                 failed = [o for o in failed if o not in unw]
             nobody = [o for o in failed if ".no-body." in o[0]]
+            failed = [o for o in failed if o not in nobody]
+            nobody = [o for o in nobody if o[0].split(".no-body.")[1] not in j.remove_bodies]
             if nobody:
                 errors.append("%s: harness links no body for %s" % (j.name, ", ".join(sorted(set(o[0].split(".no-body.")[1] for o in nobody)))))
                 failed = [o for o in failed if o not in nobody]
